@@ -662,26 +662,17 @@ def _analyze_word_parts(
 
 
 def _arith_expansion_texts(value: str) -> list[str]:
-    """Raw texts of the $(( ... )) expansions inside a word's source text."""
-    texts = []
-    i = 0
-    while i < len(value):
-        if value.startswith("$((", i):
-            depth = 0
-            j = i + 3
-            while j < len(value):
-                if value[j] == "(":
-                    depth += 1
-                elif value[j] == ")":
-                    if depth == 0:
-                        break
-                    depth -= 1
-                j += 1
-            texts.append(value[i + 3 : j])
-            i = j + 2
-        else:
-            i += 1
-    return texts
+    """Source text in which the substitutions of a word's $(( ... )) expansions are looked for.
+
+    Where an arithmetic expansion ends is not decided here: quotes and escapes inside
+    it ($(( "a)"$(cmd) )), $(( \\)$(cmd) ))) make counting parentheses unreliable. The
+    scanner only has to see every $( bash evaluates, so it is given the rest of the
+    word after the first $((, with nested $(( openers reduced to (( .
+    """
+    i = value.find("$((")
+    if i < 0:
+        return []
+    return [value[i + 3 :].replace("$((", "((")]
 
 
 def _analyze_expansion_part(
